@@ -247,6 +247,11 @@ func runConcurrentPart(r *ev.Run) (fallback string) {
 	switch {
 	case strings.Contains(text, "fatal error: concurrent map"):
 		r.Violation("C18:race:concurrent-map-access", "runtime fatal error in the race child: unsynchronised map access while goroutines share one APIClient", tail(text, 3000))
+	case err != nil && !ran && crashInLibrary(text) != "":
+		// The child died inside deps.dev code while goroutines shared one
+		// APIClient the documented way: that is the observation. The race
+		// reports collected up to then are judged below.
+		r.Violation("C18:race:crash", "the race child crashed inside deps.dev code under concurrent use of one APIClient", crashInLibrary(text))
 	case err != nil && !ran:
 		if strings.Contains(text, "unknown property") {
 			return bin + " does not contain C18"
@@ -297,4 +302,20 @@ func tail(s string, n int) string {
 		return "..." + s[len(s)-n:]
 	}
 	return s
+}
+
+// crashInLibrary returns the head of a Go panic or runtime fatal error report
+// whose stack mentions deps.dev code ("" when there is none).
+func crashInLibrary(text string) string {
+	out := "\n" + text
+	for _, h := range []string{"\npanic: ", "\nfatal error: "} {
+		if i := strings.LastIndex(out, h); i >= 0 && strings.Contains(out[i:], "deps.dev/") {
+			c := out[i+1:]
+			if len(c) > 2000 {
+				c = c[:2000]
+			}
+			return c
+		}
+	}
+	return ""
 }
